@@ -69,7 +69,7 @@ def strip_lean_comments(text):
 def reachable_lean_files():
     """the files of the deliverable: everything imported (transitively) from the library
     root and the driver roots; work-in-progress files that nothing imports are not part of it"""
-    roots = [f for f in ("Wormhole.lean", "Main.lean", "DbMain.lean") if os.path.exists(os.path.join(LEAN, f))]
+    roots = [f for f in ("Wormhole.lean", "Main.lean", "DbMain.lean", "RegMain.lean", "Wormhole/Tie/All.lean") if os.path.exists(os.path.join(LEAN, f))]
     seen, todo = set(), list(roots)
     while todo:
         f = todo.pop()
@@ -401,7 +401,10 @@ def main():
         b = build()
         log(b["log"][-2000:])
         ok = b["driver_ok"] and b["proofs_ok"]
-        print("setup: driver_ok=%s proofs_ok=%s" % (b["driver_ok"], b["proofs_ok"]))
+        import sqltie
+        st = sqltie.run()
+        print("setup: driver_ok=%s proofs_ok=%s sql_tie=%s (%d statements, %d/%d theorems)" % (
+            b["driver_ok"], b["proofs_ok"], st["status"], st["statements"], st["discharged"], st["theorems"]))
         sys.exit(0 if b["driver_ok"] else 2)
     pid = a.pid
     if pid not in PROPS:
@@ -476,6 +479,19 @@ def main():
     from props import profiles_for, engine_for
     eng = engine_for(pid)
     results = []
+    sql_tie = None
+    if eng is None:
+        # the static tie of the model's data layer to the SQL text of the current server.py (sqltie.py)
+        import sqltie
+        try:
+            sql_tie = sqltie.run()
+        except Exception as e:
+            sql_tie = {"status": "not-run", "detail": "%s: %s" % (type(e).__name__, e)}
+        cov["sql_tie"] = sql_tie
+        if sql_tie["status"] != "tied":
+            log("NOTE: the static SQL tie is %s (%s): the model's relational primitives are no longer known statically to "
+                "mean the statements of server.py; widening the search on the code" % (
+                    sql_tie["status"], "; ".join(sql_tie.get("functions_untied", [])) or sql_tie.get("detail", "")[:300]))
     if eng is not None:
         # properties decided by their own engine (database files)
         er = eng(pid, tier, seed)
@@ -531,8 +547,9 @@ def main():
             profs = [x for x in profs if x[0] in only.split(",")]     # (debugging aid: restrict to named profiles)
         work = []
         rng = random.Random(seed * 7919 + int(hashlib.sha1(pid.encode()).hexdigest()[:6], 16))
+        widen = 3 if (sql_tie is not None and sql_tie["status"] != "tied" and tier == "quick") else 1
         for name, prof, n in profs:
-            for i in range(n):
+            for i in range(n if prof.get("_exhaustive") else n * widen):
                 work.append((pid, rng.randrange(1 << 30), name, prof, i))
         with Pool(min(16, max(1, len(work)))) as pool:
             results = pool.map(_worker, work, chunksize=max(1, len(work) // 64))
